@@ -11,8 +11,7 @@ class Scn:
         self.units = []      # (kind, named, pool, ops)
         self.ext = []
         self.main = []
-        for i, (kind, acc) in enumerate(pools):
-            self.lines.append("POOL %d %s %s" % (i, kind, acc))
+        self.pools = list(pools)
         self.npool = len(pools)
         self.es_lines = []
         self.nes = nes
@@ -24,8 +23,13 @@ class Scn:
         self.units.append([kind, named, pool, list(ops)])
         return len(self.units) - 1
 
+    def add_pool(self, kind="fifo", acc="mpmc"):
+        """a pool served by no stream (parking pool for targets of directed switches)"""
+        self.pools.append((kind, acc))
+        return len(self.pools) - 1
+
     def text(self):
-        out = list(self.lines) + self.es_lines
+        out = list(self.lines) + ["POOL %d %s %s" % (i, k, a) for i, (k, a) in enumerate(self.pools)] + self.es_lines
         for i, (k, n, p, ops) in enumerate(self.units):
             out.append("UNIT %d %s %s %d : %s" % (i, k, n, p, " ".join(ops)))
         for i, ops in enumerate(self.ext):
@@ -180,13 +184,14 @@ def topo_with_parking(rng):
 def gen_directed(rng, big=False):
     """C11 family (directed switches): chains built from yield_to, thread_yield_to, suspend_to, resume_yield_to,
     resume_suspend_to, exit_to, resume_exit_to, create_to; targets started or not, same or different pools"""
-    nes, pools, es, park = topo_with_parking(rng)
+    nes, pools, es = topology(rng, max_es=2)
     s = Scn(rng, nes, pools)
     for e, sch, mine in es:
         s.es(e, sch, mine)
     sched_pools = [99] + [m for _, _, mine in es for m in mine]
     frees = []
     for _ in range(rng.randint(1, 5 if big else 3)):
+        park = s.add_pool()      # one parking pool per chain: two takers on one pool can hide each other's target
         tpl = rng.choice(["yield_to", "thread_yield_to", "suspend_to", "resume_yield_to", "resume_suspend_to",
                           "exit_to", "resume_exit_to", "create_to"])
         apool = rng.choice(sched_pools)
@@ -292,7 +297,7 @@ def gen_migrate(rng, big=False, self_suspend=False):
     for _ in range(rng.randint(1, 4 if big else 2)):
         src = rng.choice(sched_pools)
         dst = rng.choice([p for p in sched_pools if p != src])
-        how = rng.choice(["ext", "self", "twice"]) if not self_suspend else "self_suspend"
+        how = rng.choice(["ext", "self", "twice", "auto", "reject_same"]) if not self_suspend else "self_suspend"
         if how == "ext":
             t = s.unit("U", "N", src, ["Y"] * rng.randint(4, 10))
             s.main += ["C%d" % t, "M%d:%d" % (t, dst), "F%d" % t]
@@ -300,6 +305,13 @@ def gen_migrate(rng, big=False, self_suspend=False):
             t = s.unit("U", "N", src, [])
             s.units[t][3] = ["W", "M%d:%d" % (t, dst), "Y", "W", "Y"]
             s.main += ["C%d" % t, "F%d" % t]
+        elif how == "auto":
+            # ABT_thread_migrate: some other running stream that does not serve the unit's pool must be chosen
+            t = s.unit("U", "N", src, ["Y"] * rng.randint(4, 8))
+            s.main += ["C%d" % t, "m%d" % t, "F%d" % t]
+        elif how == "reject_same":
+            t = s.unit("U", "N", src, ["Y"] * 3)
+            s.main += ["C%d" % t, "M%d:%d" % (t, src), "F%d" % t]
         elif how == "twice":
             t = s.unit("U", "N", src, [])
             s.units[t][3] = ["M%d:%d" % (t, dst), "Y", "M%d:%d" % (t, src), "Y", "W"]
